@@ -453,7 +453,7 @@ def agree_ref(ctx, fi, ref_src, title, what=('return', 'heap', 'substores'), rul
     if 'calls' in what:
         def selc(II, o):
             return [e for e in II.events if e.kind == 'call' and (o is None or e.owner == o)
-                    and (e.data.get('resolved') is not None or 'candidates' in e.data) and not e.data.get('inlined')]
+                    and (e.data.get('resolved') is not None or e.data.get('candidates')) and not e.data.get('inlined')]
 
         def packed(e):
             extra = [e.data.get('star') if e.data.get('star') is not None else T.NONE,
